@@ -16,6 +16,18 @@ CHECKS = {
              "correspondence; minimal-polynomial irreducibility is checked on the implementation by the oracle only (not a theorem yet). "
              "All theorems closed under the global context (no axioms).",
         technique="Coq proof (induction over binary numbers / lists, kernel computation on the regenerated table) + model/implementation correspondence by vm_compute"),
+    "C14": dict(
+        text="Coq theorems for every n : N: the reflected Gray code n xor (n>>1) and the shift/xor loop inverting it are mutually inverse "
+             "bijections, consecutive integers (and the 2^b wrap-around) map to words at Hamming distance one, the loop terminates; the "
+             "functions as written equal them outside the hard-coded special cases regenerated from the source, and everywhere when the "
+             "kernel-evaluated consistency test of those cases holds. Verified checkers (labels are all 2^b distinct b-bit patterns, points "
+             "pairwise distinct, nearest neighbours differ in one bit, unit average energy) with soundness theorems are applied by the kernel "
+             "to the table every modulator publishes; label-table model tied to PSK/QAM/PAM by exact comparison.",
+        design="6/C14",
+        note="Trusted: Coq kernel + vm_compute; translator harness/translate/grayconst.py; float32 coordinates taken as exact rationals with "
+             "relative tolerance 1e-4 (neighbour relation) / 1e-5 (energy). Geometry theorems for arbitrary order (cos/sin monotonicity) are "
+             "not formalised: the Gray-neighbour and energy clauses are decided per published table (all orders of the catalogue). Closed under the global context.",
+        technique="Coq proof (bitwise induction on N) + kernel-evaluated verified checkers on published tables + model/implementation correspondence by vm_compute"),
 }
 NOT_YET = {}
 
